@@ -311,7 +311,8 @@ class Outbound:
         if self._paused:
             return  # someone is confused and called us twice
         self._paused = True
-        for p in self._all_producers:
+        # (a producer may unregister, or close its subchannel, in response)
+        for p in list(self._all_producers):
             if p in self._unpaused_producers:
                 self._unpaused_producers.remove(p)
                 self._paused_producers.add(p)
